@@ -1,3 +1,4 @@
+import CookModel.Basic.Decimal
 /-
   Arithmetic interface of the numeric model.
 
@@ -30,6 +31,8 @@ class Arith (α : Type) where
   ofNat : Nat → α
   ofInt : Int → α
   const : Const → α
+  /-- the decimal literal `m / 10^e`, as `str::parse::<f64>` reads it (correctly rounded) -/
+  ofDecimal : Nat → Nat → α
   /-- Rust `f64::trunc` -/
   trunc : α → α
   /-- Rust `f64::round` (half away from zero) -/
@@ -83,6 +86,7 @@ instance : Arith Rat where
   ofNat n := (n : Rat)
   ofInt n := (n : Rat)
   const c := c.rat
+  ofDecimal m e := (m : Rat) / ((10 ^ e : Nat) : Rat)
   trunc x := (ratTrunc x : Rat)
   round x := (ratRound x : Rat)
   abs x := if 0 ≤ x then x else -x
@@ -105,6 +109,7 @@ instance : Arith Float where
   ofNat n := Float.ofNat n
   ofInt n := Float.ofInt n
   const c := Float.ofBits c.bits
+  ofDecimal m e := Float.ofBits (decToF64Bits m e)
   trunc := floatTrunc
   round := Float.round
   abs := Float.abs
